@@ -174,9 +174,19 @@ def r_sql_columns(prog, rep, db=None):
     if extra:
         r.violation("setRuleResult|bind-extra", "parameters %s bound beyond the column list" % extra, f)
     # the encoded dependency list is what gets bound: encoder filled from ruleResult.dependencies in order
-    fr = [n for n in f.nodes if n.get("k") == "forrange" and "ruleResult.dependencies" in expr_str(n.child("range"))]
-    r.check(len(fr) == 1 and any((c.get("fn") or "").endswith("BinaryEncoder::write") for c in f.calls() if any(x is c for x in fr[0].walk())),
-            "setRuleResult|dependencies-encoded-in-order", "", "dependencies are not encoded by one pass over ruleResult.dependencies", f)
+    from rules import engine as E_
+    fr = [lp for lp, _en in E_.whole_container_loops(f, "ruleResult.dependencies") if
+          any((c.get("fn") or "").endswith("BinaryEncoder::write") for c in f.calls() if any(x is c for x in lp.walk()))]
+    r.check(len(fr) == 1, "setRuleResult|dependencies-encoded-in-order", "", "dependencies are not encoded by one pass over ruleResult.dependencies", f)
+    if len(fr) == 1:
+        # ... and every entry is written: an entry is skipped only by leaving the function with an error.  (A duplicate key may carry
+        # different order-only / single-use flags — `a || b` plus a depfile naming b — so "the key was already written" is not a reason.)
+        lp = fr[0]
+        wr = [c for c in f.calls() if (c.get("fn") or "").endswith("BinaryEncoder::write") and any(x is c for x in lp.walk())]
+        skips = [x for x in lp.child("body").walk() if x.get("k") in ("continue", "break", "goto")]
+        cond = [a for c in wr for a in f.ancestors(c) if a is not lp and a.get("k") in ("if", "cond", "switch") and any(y is a for y in lp.walk())]
+        r.check(not skips and not cond, "setRuleResult|every-dependency-encoded", "", "an entry of ruleResult.dependencies can be left out of the stored list (%s): the list read "
+                "back after a restart is not the list the engine holds" % ("the loop skips or stops" if skips else "the write is conditional"), f, (skips or cond or [lp])[0])
 
     # ------------------------------------------------------------------ readers
     readers = [("lookupRuleResult", "fastFindRuleResultStmt", "result_out"), ("lookupRuleResult", "findRuleResultStmt", "result_out"),
